@@ -101,8 +101,9 @@ def nameId? (n : Node) : Option Str := if n.isKind "Name" then n.strAttr "id" el
 def attrName? (n : Node) : Option Str := if n.isKind "Attribute" then n.strAttr "attr" else none
 end Node
 
-/-- `Context._get_literal_value`.  Raises `TypeError` for a set display with an unhashable
-element (`{[1]}`), exactly as `return_set.add(...)` does. -/
+/-- `Context._get_literal_value`.  A set display with an unhashable element (`{[1]}`) is "not a
+literal" (`None`): the `TypeError` of `return_set.add(...)` is caught since /repo fix
+"set display with an unhashable element". -/
 def literalValue : Node → M PyVal
   | .mk k p a ks =>
     let n := Node.mk k p a ks
@@ -125,7 +126,7 @@ def literalValue : Node → M PyVal
       pure (.tuple xs)
     else if n.isKind "Set" then do
       let xs ← litList ks
-      if xs.all PyVal.hashable then pure (.set xs.isEmpty) else throw .typeError
+      if xs.all PyVal.hashable then pure (.set xs.isEmpty) else pure .none   -- `except TypeError: literal_value = None`
     else if n.isKind "Dict" then
       pure (.dict ((ks.find? (·.1 == "values".toList)).map (·.2.2.isEmpty) |>.getD true))
     else if n.isKind "Name" then
